@@ -588,7 +588,7 @@ func runC10(e *Engine, r *Report, tier string) {
 	r.Rule("R1", "subject argument of value-taking APIs roots only at contract.Caller()", 12, "subject call sites in x/*/precompile")
 	r.Rule("R2", "call-data `from` accepted only behind the allowance check-and-decrement", 3, "share-transfer call sites + allowance routine")
 	r.Rule("R3", "dispatchers: readonly guard and governance switch dominate method.Run; go-ethereum readOnly flags", 8, "2 dispatchers x 3 + 4 EVM call kinds")
-	r.Rule("R4", "governance switch matches address or address/method and returns an error", 2, "comparisons in the switch check")
+	r.Rule("R4", "governance switch: every entry is compared; address and address/method matches return an error", 3, "the switch check")
 
 	inPrecompile := func(fn *ssa.Function) bool { return strings.HasSuffix(fnPkgPath(fn), "/precompile") }
 
@@ -895,24 +895,134 @@ func runC10(e *Engine, r *Report, tier string) {
 		// fallback: callee of CheckDisabledPrecompiles
 		r.Fail("R4", "switch-check", "", "UNRESOLVED-ANCHOR: governance switch comparison routine not found")
 	} else {
-		n := 0
-		allInstrs(chk, func(i ssa.Instruction) {
-			iff, ok := i.(*ssa.If)
-			if !ok {
-				return
+		// the list scan: an entry that names the address (whole) or address/method makes the call fail, and no entry is
+		// skipped — the loop is left early only through an error return
+		var hdr *ssa.BasicBlock
+		var loop map[*ssa.BasicBlock]bool
+		for _, b := range chk.Blocks {
+			if h, set := loopOf(b); h != nil {
+				hdr, loop = h, set
 			}
-			ci, ok := NormCond(Guard{Cond: iff.Cond, Pol: true, If: iff})
-			if !ok || ci.Op != "==" || ci.X == nil || ci.Y == nil {
-				return
+		}
+		ck := e.FnKey(chk)
+		if hdr == nil {
+			r.Fail("R4", ck+" scan-complete", e.Pos(chk.Pos()), "UNRESOLVED-ANCHOR: the switch check does not iterate over the disabled list")
+		} else {
+			onlyFailure := func(start *ssa.BasicBlock) *ssa.Return {
+				seen := map[*ssa.BasicBlock]bool{}
+				var bad *ssa.Return
+				var dfs func(b *ssa.BasicBlock)
+				dfs = func(b *ssa.BasicBlock) {
+					if seen[b] || bad != nil {
+						return
+					}
+					seen[b] = true
+					if ret, ok := b.Instrs[len(b.Instrs)-1].(*ssa.Return); ok {
+						if !IsFailureReturn(ret) {
+							bad = ret
+						}
+						return
+					}
+					for _, s2 := range b.Succs {
+						dfs(s2)
+					}
+				}
+				dfs(start)
+				return bad
 			}
-			if b, ok := ci.X.Type().Underlying().(*types.Basic); !ok || b.Kind() != types.String {
-				return
+			var early *ssa.Return
+			for b := range loop {
+				if b == hdr {
+					continue
+				}
+				for _, s2 := range b.Succs {
+					if !loop[s2] {
+						if ret := onlyFailure(s2); ret != nil {
+							early = ret
+						}
+					}
+				}
 			}
-			n++
-			r.Check(BranchFailsClean(iff, true, nil), "R4", fmt.Sprintf("%s cmp#%d", e.FnKey(chk), n), e.InstrPos(iff), "match returns an error", "a matching disabled entry does not make the call fail")
-		})
-		if n < 2 {
-			r.Fail("R4", e.FnKey(chk)+" comparisons", e.Pos(chk.Pos()), fmt.Sprintf("only %d string comparison(s) in the switch check: address and address/method must both be matched", n))
+			if early != nil {
+				r.Fail("R4", ck+" scan-complete", e.InstrPos(early), "the scan of the disabled list can be left early without an error (break / early return): entries after that point are never compared, so a disabled address or method listed later still executes")
+			} else {
+				r.Ok("R4", ck+" scan-complete", e.Pos(chk.Pos()), "the loop over the disabled list is left early only through an error return")
+			}
+			var addrPar, methPar *ssa.Parameter
+			for _, p := range chk.Params {
+				ts := p.Type().String()
+				if strings.HasSuffix(ts, "common.Address") {
+					addrPar = p
+				}
+				if ts == "[]byte" {
+					methPar = p
+				}
+			}
+			addrOnly, withMethod := false, false
+			for b := range loop {
+				for _, in := range b.Instrs {
+					_ = in
+				}
+			}
+			for _, b := range chk.Blocks {
+				ret, ok := b.Instrs[len(b.Instrs)-1].(*ssa.Return)
+				if !ok || !IsFailureReturn(ret) {
+					continue
+				}
+				inLoop := false
+				for _, g := range GuardsOf(ret) {
+					if loop[g.If.Block()] {
+						inLoop = true
+					}
+				}
+				if !inLoop {
+					continue
+				}
+				a, m := false, false
+				extra := false
+				for _, g := range GuardsOf(ret) {
+					if !loop[g.If.Block()] {
+						continue
+					}
+					ci, ok := NormCond(g)
+					if ok && (ci.Op == "found" || ci.Op == "!found") {
+						continue // the boolean of the entry split (strings.Cut)
+					}
+					if g.If.Block() == hdr {
+						continue // the loop's own continuation test
+					}
+					if !ok || (ci.Op != "==" && ci.Op != "!=") || ci.X == nil || ci.Y == nil {
+						extra = true // any further condition narrows the match
+						continue
+					}
+					if bt, ok := ci.X.Type().Underlying().(*types.Basic); !ok || bt.Kind() != types.String {
+						extra = true
+						continue
+					}
+					if ci.Op == "!=" {
+						continue // the other kind of entry did not match: not a narrowing of this match
+					}
+					for _, side := range []ssa.Value{ci.X, ci.Y} {
+						if addrPar != nil && e.rootsParam(side, addrPar) {
+							a = true
+						}
+						if methPar != nil && e.rootsParam(side, methPar) {
+							m = true
+						}
+					}
+				}
+				if extra {
+					continue
+				}
+				if a && !m {
+					addrOnly = true
+				}
+				if m {
+					withMethod = true
+				}
+			}
+			r.Check(addrOnly, "R4", ck+" address-match", e.Pos(chk.Pos()), "an entry equal to the address alone returns an error", "no error return is guarded by exactly the comparison with the called address (a further condition narrows the match): disabling a whole precompile has no effect for some calls")
+			r.Check(withMethod, "R4", ck+" method-match", e.Pos(chk.Pos()), "an entry naming address and method id returns an error", "no error return is guarded by exactly the comparison with the called method id (a further condition narrows the match): disabling one method has no effect for some calls")
 		}
 	}
 }
